@@ -37,6 +37,7 @@ type Obligation struct {
 	posv   token.Pos
 	Vars   map[string]string // source-level name -> SMT term (for counterexample extraction)
 	Values map[string]string
+	Candidate bool // Values come from a weakened query (quantified assumptions dropped)
 }
 
 // FnCtx is the per-function SMT context.
